@@ -266,6 +266,7 @@ int mon_alloc(const mon_args_t *a) {
     MAXLIVE = 0;
     snprintf(KEYP, sizeof KEYP, "alloc|%s|-", HN[kind]);
     long live0 = aw_live_blocks();
+    AW_poison = 3; /* fresh blocks from the system allocator are not zero: mzd_init has to clear them itself */
     hx_begin(idx, KEYP, "history=%s", HN[kind]);
     int steps = 0, every = a->tier ? 1 : 16;
     size_t thr = (size_t)__M4RI_CPU_L3_CACHE;
@@ -404,6 +405,7 @@ int mon_alloc(const mon_args_t *a) {
 #endif
     }
 #endif
+    AW_poison = 0;
     m4ri_init();
     hx_cls("%s:%d", HN[kind], steps > 2000 ? 9 : steps / 250);
     hx_tag("%s", HN[kind]);
